@@ -134,26 +134,46 @@ def run(ctx):
     # ---- A2 propagation twins ---------------------------------------------------------------------
     a2 = ctx.rule("TWIN.A2-propagate", "the state->phone and phone->word loops are the same algorithm: on a new parent start <- child's start, duration <- 0, score <- 0, then duration and score accumulate the child's; every field accumulated is also reset", floor=4)
     f = pa["alignment_propagate"]
-    loops = f.find("For")
+    loops = sorted(f.find("For") + f.find("While"), key=lambda l_: f.line(l_))
+    # each level, one step path by path over values (symx.loop_paths): `seq + i`, `&seq[i]` and temporaries
+    # read alike
+    from .. import symx
     sums = []
+    okpar = True
     for l in loops:
-        body = f.ch(l)[3]
-        vs = {f.nodes[v]["name"]: f.canon(f.ch(v)[0], subst=False) for v in f.find("Var", root=body) if f.ch(v)}
-        names = list(vs.keys())
-        if len(names) != 2:
-            sums.append(None)
-            continue
-        child, parent = names
-        sub = lambda s_: re.sub(r"\b%s\b" % parent, "PARENT", re.sub(r"\b%s\b" % child, "CHILD", s_))
-        sts = []
-        for s in paths.stores(f, body):
-            newp = paths.guarded(f, s["node"], lambda fn, cc, pol: paths.rel(fn, cc, pol, subst=False) in ((parent, "!=", "last_ent"), ("last_ent", "!=", parent)))
-            sts.append((sub(s["path"]), s["op"], sub(f.canon(s["rhs"], subst=False)), newp))
-        sums.append((sts, sub(vs[parent]).replace("al->sseq", "VEC").replace("al->word", "VEC"), f.canon(f.ch(l)[1], subst=False).replace("al->state", "CV").replace("al->sseq", "CV")))
-    want_sts = [("PARENT->start", "=", "CHILD->start", True), ("PARENT->duration", "=", "0", True), ("PARENT->score", "=", "0", True),
-                ("PARENT->duration", "+=", "CHILD->duration", False), ("PARENT->score", "+=", "CHILD->score", False), ("last_ent", "=", "PARENT", False)]
-    ctx.check(a2, len(sums) == 2 and all(x is not None and x[0] == want_sts for x in sums), key(f, "loops"), f.where(f.root), "propagation loops are %s; expected both to be %s" % ([x[0] if x else None for x in sums], want_sts))
-    ctx.check(a2, len(sums) == 2 and all(x is not None and x[1] == "(VEC.seq + CHILD->parent)" for x in sums), key(f, "parent-of-child"), f.where(f.root), "the parent entry is not looked up through the child's parent index")
+        sig = set()
+        for pt in symx.loop_paths(f, l, P):
+            if pt.end != "next":
+                continue
+            ent = [(pth, lin.p_str(v_)) for (pth, v_, n_) in pt.stores if re.search(r"\.(start|duration|score)$", pth)]
+            if not ent:
+                sig.add(("?",))
+                continue
+            m_ = re.match(r"^(al->\w+)\.seq\[(.*)\]\.(\w+)$", ent[0][0])
+            if not m_:
+                sig.add(("?", ent[0][0]))
+                continue
+            PVEC_, PIDX_ = m_.group(1), m_.group(2)
+            mc = re.match(r"^(al->\w+)\.seq\[(\w+)\]\.parent$", PIDX_)
+            if not mc:
+                okpar = False
+                continue
+            CHI_ = "%s.seq[%s]" % (mc.group(1), mc.group(2))
+            PAR_ = "%s.seq[%s]" % (PVEC_, PIDX_)
+            newp = [v_ for k_, v_ in pt.atoms.items() if k_[0] == "==" and "last_ent" in k_[1:]]
+            le = pt.stored("last_ent")
+            okle = le is not None and le == lin.p_add(lin.p_atom(PVEC_ + ".seq"), lin.p_atom(PIDX_))
+            sub = lambda t_: " + ".join(sorted(t_.replace(PAR_, "PARENT").replace(CHI_, "CHILD").split(" + ")))
+            sig.add((tuple((sub(pth), sub(v_)) for pth, v_ in ent), (not newp[0]) if newp else None, okle, mc.group(1), PVEC_))
+        sums.append(sig)
+    want_new = (("PARENT.start", "CHILD.start"), ("PARENT.duration", "0"), ("PARENT.score", "0"), ("PARENT.duration", "CHILD.duration"), ("PARENT.score", "CHILD.score"))
+    want_old = (("PARENT.duration", "CHILD.duration + PARENT.duration"), ("PARENT.score", "CHILD.score + PARENT.score"))
+
+    def level_ok(sig):
+        forms = set((x[0], x[1], x[2]) for x in sig if len(x) == 5)
+        return len(sig) == 2 and forms == {(want_new, True, True), (want_old, False, True)}
+    ctx.check(a2, len(sums) == 2 and all(level_ok(x) for x in sums), key(f, "loops"), f.where(f.root), "propagation steps are %s; expected on a new parent %s and otherwise %s, with last_ent following the parent" % ([sorted(x, key=str) for x in sums], want_new, want_old))
+    ctx.check(a2, okpar and len(sums) == 2 and all(len(x) == 2 for x in sums), key(f, "parent-of-child"), f.where(f.root), "the parent entry is not looked up through the child's parent index")
     # what the second level compares its first parent with: every definition of last_ent that reaches the
     # second loop from outside it is a null constant (an assignment or a fresh variable)
     okreset = len(loops) == 2
@@ -168,8 +188,8 @@ def run(ctx):
                 if val in (None, "uninit", "param") or not paths.is_const(f, val, 0):
                     okreset = False
     ctx.check(a2, okreset, key(f, "reset-between"), f.where(f.root), "last_ent is not reset between the two levels")
-    order = [f.canon(f.ch(l)[1], subst=False) for l in loops]
-    ctx.check(a2, order == ["(i < al->state.n_ent)", "(i < al->sseq.n_ent)"], key(f, "bottom-up"), f.where(f.root), "levels are not propagated bottom-up (states, then phones): %s" % order)
+    order = [sorted(set((x[3], x[4]) for x in sig if len(x) == 5)) for sig in sums]
+    ctx.check(a2, order == [[("al->state", "al->sseq")], [("al->sseq", "al->word")]], key(f, "bottom-up"), f.where(f.root), "levels are not propagated bottom-up (states, then phones): %s" % order)
     # state expansion twins
     def state_loop(fn):
         out = []
@@ -199,7 +219,7 @@ def run(ctx):
                 okspans, why = False, "a step does not read the token of the current frame"
                 break
             V = lin.p_str(V)
-            same = [v_ for k_, v_ in pt.atoms.items() if k_[0] == "==" and "last.id" in k_[1:] and ("(%s).id" % V in k_[1:] or "%s.id" % V in k_[1:])]
+            same = [v_ for k_, v_ in pt.atoms.items() if k_[0] == "==" and "last.id" in k_[1:] and ("(%s).id" % V in k_[1:] or "%s.id" % V in k_[1:] or "%s.id" % symx._wrap(V) in k_[1:])]
             ent = [(pth, v_) for (pth, v_, n_) in pt.stores if pth.endswith(("->start", "->duration", "->score"))]
             if not same:
                 okspans, why = False, "a step does not compare the token's state with the state being traced"
@@ -213,7 +233,7 @@ def run(ctx):
             cf1 = lin.p_add(lin.p_atom("cur_frame"), lin.p_const(1))
             d = dict((pth.rsplit("->", 1)[1], v_) for pth, v_ in ent)
             targets = set(pth.rsplit("->", 1)[0] for pth, v_ in ent)
-            sc = lin.p_add(lin.p_atom("last.score"), lin.p_atom("(%s).score" % V), -1)
+            sc = lin.p_add(lin.p_atom("last.score"), lin.p_atom("%s.score" % symx._wrap(V)), -1)
             if d.get("start") != cf1:
                 okspans, why = False, "span start is %s, expected cur_frame + 1" % lin.p_str(d.get("start", {}))
             elif d.get("duration") != lin.p_add(lin.p_atom("last_frame"), cf1, -1):
@@ -235,8 +255,10 @@ def run(ctx):
     gos = f.calls("alignment_iter_goto")
     tg = [f.canon(f.args(c)[1], subst=False) for c in gos]
     ctx.check(a3, tg == ["last.id", "0"], key(f, "targets"), f.where(f.root), "spans are written to states %s, expected the state being left (last.id) and state 0" % tg)
-    cu = [s for s in paths.stores(f) if s["path"] == "cur"]
-    ctx.check(a3, len(cu) == 1 and f.canon(cu[0]["rhs"], subst=False) == "sas->tokens[((cur_frame * sas->n_emit_state) + cur.id)]", key(f, "token"), f.where(f.root), "back-trace follows %s" % [f.canon(s["rhs"], subst=False) for s in cu])
+    # the token followed is that of the current frame and the state being traced (as a value: a row pointer
+    # hoisted into a local reads the same)
+    toks = set(lin.p_str(pt.stored("cur")) for pt in symx.loop_paths(f, lps[0], P) if pt.stored("cur") is not None) if len(lps) == 1 else set()
+    ctx.check(a3, toks == {"sas->tokens[cur.id + cur_frame*sas->n_emit_state]"}, key(f, "token"), f.where(f.root), "back-trace follows %s" % sorted(toks))
     lp = f.find("For")
     ctx.check(a3, len(lp) == 1 and f.canon(f.ch(lp[0])[0], subst=False) == "cur_frame = (sas->frame - 2)" and paths.rel(f, f.ch(lp[0])[1], True, subst=False) == ("0", "<=", "cur_frame") and f.canon(f.ch(lp[0])[2], subst=False) == "--cur_frame", key(f, "range"), f.where(f.root), "back-trace does not run from frame-2 down to 0")
     ini = sorted((s["path"], f.canon(s["rhs"], subst=False)) for s in paths.stores(f) if s["path"] in ("last.id", "cur.id", "last.score"))
